@@ -3,19 +3,20 @@
 # /repo and run every registered check: any VIOLATION is a false alarm of the machinery.
 export GOFLAGS=-mod=mod GOPROXY=off GOSUMDB=off GOTOOLCHAIN=local
 SRC=${1:-/verif/refactors}
-M=/var/tmp/lvc-ref/repo; B=/var/tmp/lvc-ref/base
+T=/var/tmp/lvc-${REF_TAG:-ref}
+M=$T/repo; B=$T/base
 mkdir -p $M $B
 rsync -a --delete --exclude .git /repo/ $B/
-cp /verif/bin/lvc /var/tmp/lvc-ref/lvc
+cp /verif/bin/lvc $T/lvc
 IDS=$(python3 -c "import json;print(' '.join(c['property_id'] for c in json.load(open('/verif/MANIFEST.json'))['checks']))")
-for d in $(ls $SRC); do
+for d in $(ls $SRC | grep -E -e "${REF_FILTER:-.}"); do
   [ -f $SRC/$d/patch.diff ] || continue
   rsync -a --delete $B/ $M/
   (cd $M && patch -p1 -s < $SRC/$d/patch.diff) || { echo "$d: patch failed"; continue; }
   (cd $M && go build ./... ) || { echo "$d: does not build"; continue; }
   alarms=""
   for id in $IDS; do
-    out=$(cd /verif && timeout 900 /var/tmp/lvc-ref/lvc check $id --repo $M 2>&1)
+    out=$(cd /verif && timeout 900 $T/lvc check $id --repo $M 2>&1)
     if [ $? -ne 0 ]; then
       ob=$(echo "$out" | grep "^VIOLATION" | sed 's/.*obligation=\([^ ]*\).*/\1/' | head -3 | tr '\n' ' ')
       alarms="$alarms [$id: $ob]"
@@ -23,4 +24,4 @@ for d in $(ls $SRC); do
   done
   echo "$d -> ${alarms:-quiet}"
 done
-rm -rf /var/tmp/lvc-ref
+rm -rf $T
